@@ -374,6 +374,93 @@ pub fn c10(seed: u64, tier_thorough: bool) -> SeqOut {
             weak_many_case!(64, tag, &mut rng, out);
         }
     }
+    // owners regained through a weak_many share inside the reclamation window: all bulk owners are released,
+    // then (0..3 rounds later, i.e. before / while / after the pending destruction attempt) a share is upgraded,
+    // held for some rounds and released again
+    for ctor in 0..4u64 {
+        for upgrade_at in 0..=4usize {
+            for hold in [0usize, 1, 5] {
+                for via_snapshot in [false, true] {
+                    let (c, drops) = cnt();
+                    let mut owners: Vec<Rc<Cnt>> = match ctor {
+                        0 => Rc::new_many::<1>(c).into_iter().collect(),
+                        1 => Rc::new_many::<3>(c).into_iter().collect(),
+                        2 => {
+                            let mut it = Rc::new_many_iter(c, 4);
+                            let v: Vec<_> = (0..2).filter_map(|_| it.next()).collect();
+                            drop(it);
+                            v
+                        }
+                        _ => {
+                            let mut it = Rc::new_many_iter(c, 3);
+                            let v: Vec<_> = (0..1).filter_map(|_| it.next()).collect();
+                            let g = circ::cs();
+                            it.abort(&g);
+                            v
+                        }
+                    };
+                    let addr = owners[0].verif_addr();
+                    let [w0, w1] = owners[0].weak_many::<2>();
+                    while let Some(r) = owners.pop() {
+                        drop(r);
+                    }
+                    churn(upgrade_at);
+                    mon::eval("bulk-counts");
+                    let what = "revive-through-weak_many";
+                    let before = drops.load(SeqCst);
+                    let up = if via_snapshot {
+                        let g = circ::cs();
+                        let ws = w0.snapshot(&g);
+                        ws.upgrade().map(|s| s.counted())
+                    } else {
+                        w0.upgrade()
+                    };
+                    match up {
+                        Some(r) => {
+                            if before != 0 || drops.load(SeqCst) != 0 {
+                                report("C10", &format!("C10|{}-upgrade-after-destruct", what), "upgrade succeeded on a destructed object".into());
+                            }
+                            if r.verif_addr() != addr {
+                                report("C10", &format!("C10|{}-owner-other-object", what), "upgrade returned another object".into());
+                            }
+                            churn(hold);
+                            if drops.load(SeqCst) != 0 {
+                                report("C10", &format!("C10|{}-destructed-early", what), format!("destructed while the upgraded owner is held (ctor {}, upgrade after {} rounds, held {} rounds)", ctor, upgrade_at, hold));
+                            }
+                            drop(r);
+                        }
+                        None => {}
+                    }
+                    if rounds_until(ROUND_BOUND, || drops.load(SeqCst) >= 1).is_none() {
+                        report(
+                            "C10",
+                            &format!("C10|{}-never-destructed", what),
+                            format!("ctor {}: owners released, share upgraded after {} rounds and released after {} more: object not destructed within {} rounds", ctor, upgrade_at, hold, ROUND_BOUND),
+                        );
+                    } else {
+                        if w1.upgrade().is_some() {
+                            report("C10", &format!("C10|{}-upgrade-after-destruct", what), "upgrade succeeded after destruction".into());
+                        }
+                        churn(6);
+                        if drops.load(SeqCst) > 1 {
+                            report("C10", &format!("C10|{}-destructed-twice", what), format!("destructor ran {} times", drops.load(SeqCst)));
+                        }
+                        if mon::block_state(addr).1 != 0 {
+                            report("C10", &format!("C10|{}-block-freed-early", what), "block freed while two weak_many shares are alive".into());
+                        }
+                        drop(w0);
+                        drop(w1);
+                        if rounds_until(ROUND_BOUND, || mon::block_state(addr).1 == 1).is_none() {
+                            report("C10", &format!("C10|{}-block-not-freed", what), "block not freed after the last weak share was dropped".into());
+                        }
+                    }
+                    out.case(h(&[13, ctor, upgrade_at as u64, hold as u64, via_snapshot as u64]), || {
+                        J::obj().set("ctor", format!("revive ctor {}", ctor)).set("upgrade_after_rounds", upgrade_at).set("hold_rounds", hold)
+                    });
+                }
+            }
+        }
+    }
     mon::set_extra_event(None);
     out.extra = J::obj().set("counters", &cnts);
     out.exhaustive = false;
@@ -1374,10 +1461,390 @@ pub fn c06(_seed: u64, thorough: bool) -> SeqOut {
             }
         }
     }
+    // ---- shapes with shared nodes (in-degree >= 2 inside the dying structure) and with survivors that are
+    // referenced from every node and possibly re-stamped by their holder in every round
+    let graph = |out: &mut SeqOut, worst: &mut Counts, max_ratio: &mut f64, shape: &str, n: usize, age: usize, residue: usize, hot: bool| {
+        L_DROPS.store(0, SeqCst);
+        let mut survivors: Vec<Rc<LNode>> = Vec::new();
+        let (head, total, expect) = {
+            let g = circ::cs();
+            match shape {
+                "skiplist" => {
+                    // i -> i+1 (edge 0); even i -> i+2 (edge 1)
+                    let nodes: Vec<Rc<LNode>> = (0..n).map(|_| lnode()).collect();
+                    for i in (0..n).rev() {
+                        if i + 1 < n {
+                            nodes[i].as_ref().unwrap().next[0].store(nodes[i + 1].clone(), SeqCst, &g);
+                        }
+                        if i % 2 == 0 && i + 2 < n {
+                            nodes[i].as_ref().unwrap().next[1].store(nodes[i + 2].clone(), SeqCst, &g);
+                        }
+                    }
+                    (nodes.into_iter().next().unwrap(), n, n)
+                }
+                "ladder" => {
+                    // A_i -> A_{i+1} (edge 0), A_i -> B_i (edge 1), B_i -> B_{i+1} (edge 0)
+                    let m = n / 2;
+                    let a: Vec<Rc<LNode>> = (0..m).map(|_| lnode()).collect();
+                    let b: Vec<Rc<LNode>> = (0..m).map(|_| lnode()).collect();
+                    for i in (0..m).rev() {
+                        if i + 1 < m {
+                            a[i].as_ref().unwrap().next[0].store(a[i + 1].clone(), SeqCst, &g);
+                            b[i].as_ref().unwrap().next[0].store(b[i + 1].clone(), SeqCst, &g);
+                        }
+                        a[i].as_ref().unwrap().next[1].store(b[i].clone(), SeqCst, &g);
+                    }
+                    drop(b);
+                    (a.into_iter().next().unwrap(), 2 * m, 2 * m)
+                }
+                "shared-survivor-first" | "shared-survivor-last" => {
+                    // every chain node also points to one externally held node S
+                    let sv = lnode();
+                    let (ks, kn) = if shape == "shared-survivor-first" { (0, 1) } else { (1, 0) };
+                    let mut head: Rc<LNode> = Rc::null();
+                    for _ in 0..n {
+                        let nd = lnode();
+                        nd.as_ref().unwrap().next[kn].store(head, SeqCst, &g);
+                        nd.as_ref().unwrap().next[ks].store(sv.clone(), SeqCst, &g);
+                        head = nd;
+                    }
+                    survivors.push(sv);
+                    (head, n + 1, n)
+                }
+                _ => {
+                    // "tree-held-leaf": root -> [leaf (held elsewhere), chain of n]
+                    let root = lnode();
+                    let leaf = lnode();
+                    let (chain, _) = build_chain(n, None, 0);
+                    root.as_ref().unwrap().next[0].store(leaf.clone(), SeqCst, &g);
+                    root.as_ref().unwrap().next[1].store(chain, SeqCst, &g);
+                    survivors.push(leaf);
+                    (root, n + 2, n + 1)
+                }
+            }
+        };
+        churn(age);
+        while verif::global_epoch() % 16 != residue {
+            churn(1);
+        }
+        if hot {
+            for sv in &survivors {
+                drop(sv.clone());
+            }
+        }
+        let e0 = verif::global_epoch();
+        drop(head);
+        let mut rounds = 0usize;
+        let budget_rounds = 40 * (2 + total / 1024) + 200;
+        while L_DROPS.load(SeqCst) < expect && rounds < budget_rounds {
+            if hot {
+                // the holder keeps using its node: every use re-stamps it
+                for sv in &survivors {
+                    drop(sv.clone());
+                }
+            }
+            churn(1);
+            rounds += 1;
+        }
+        mon::eval("latency-bound");
+        let got = L_DROPS.load(SeqCst);
+        let adv = L_LAST.load(SeqCst).saturating_sub(e0);
+        let bound = 12 * (1 + (total + 1023) / 1024);
+        let label = if hot { format!("{}-hot", shape) } else { shape.to_string() };
+        if got < expect {
+            report("C06", &format!("C06|not-reclaimed|{}", label), format!("{} n={} age={} residue={}: only {} of {} nodes destructed after {} rounds", label, total, age, residue, got, expect, rounds));
+        } else if adv > bound {
+            report(
+                "C06",
+                &format!("C06|latency-exceeds-bound|{}", label),
+                format!("{} n={} link age={} residue={}: {} epoch advances between dropping the head and the last destructor (bound {} = 12*(1+ceil(n/1024)))", label, total, age, residue, adv, bound),
+            );
+        }
+        churn(8);
+        if L_DROPS.load(SeqCst) > expect {
+            report("C06", "C06|survivor-destructed", format!("{} n={}: {} nodes destructed, expected exactly {} (the held node must survive)", label, total, L_DROPS.load(SeqCst), expect));
+        }
+        drop(survivors);
+        let mut r = 0;
+        while L_DROPS.load(SeqCst) < total && r < budget_rounds {
+            churn(1);
+            r += 1;
+        }
+        if L_DROPS.load(SeqCst) != total {
+            report("C06", &format!("C06|not-reclaimed|{}", label), format!("{} n={}: {} of {} nodes destructed after the survivors were released", label, total, L_DROPS.load(SeqCst), total));
+        }
+        let ratio = adv as f64 / bound as f64;
+        if ratio > *max_ratio {
+            *max_ratio = ratio;
+        }
+        let key = format!("max_advances|{}|n={}", label, total);
+        if adv as u64 > worst.get(&key) {
+            worst.0.insert(key, adv as u64);
+        }
+        out.case(h(&[51, shape.len() as u64 * 131 + shape.as_bytes()[0] as u64 + shape.as_bytes()[shape.len() - 1] as u64 * 7, total as u64, age as u64, residue as u64, hot as u64]), || {
+            J::obj().set("shape", label.clone()).set("n", total).set("link_age", age).set("residue", residue).set("advances", adv).set("bound", bound)
+        });
+    };
+    for shape in ["skiplist", "ladder", "shared-survivor-first", "shared-survivor-last", "tree-held-leaf"] {
+        for &n in &[40usize, 400, 3000] {
+            for &r in &[0usize, 5, 11, 14, 15] {
+                for &age in &[3usize, 8] {
+                    for hot in [false, true] {
+                        if hot && (shape == "skiplist" || shape == "ladder") {
+                            continue;
+                        }
+                        graph(&mut out, &mut worst, &mut max_ratio, shape, n, age, r, hot);
+                    }
+                }
+            }
+        }
+    }
+    // ---- the head (or the node at which the recursion paused) is re-acquired and released again while its
+    // destruction attempt is pending
+    for &n in &[100usize, 1500] {
+        for via in 0..2usize {
+            for at in 0..=3usize {
+                for &r in &[0usize, 4, 9, 15] {
+                    for pos in [0usize, 1024] {
+                        if pos >= n {
+                            continue;
+                        }
+                        L_DROPS.store(0, SeqCst);
+                        let (head, held) = build_chain(n, Some(pos), 0);
+                        let target = held.unwrap();
+                        let w = target.downgrade();
+                        drop(target);
+                        churn(8);
+                        while verif::global_epoch() % 16 != r {
+                            churn(1);
+                        }
+                        let e0 = verif::global_epoch();
+                        drop(head);
+                        churn(at);
+                        // re-acquire and release at once
+                        let before = L_DROPS.load(SeqCst);
+                        let got = if via == 0 {
+                            w.upgrade()
+                        } else {
+                            let g = circ::cs();
+                            w.snapshot(&g).upgrade().map(|s| s.counted())
+                        };
+                        let revived = got.is_some();
+                        drop(got);
+                        let _ = before;
+                        let mut rounds = 0;
+                        let budget_rounds = 40 * (2 + n / 1024) + 200;
+                        while L_DROPS.load(SeqCst) < n && rounds < budget_rounds {
+                            churn(1);
+                            rounds += 1;
+                        }
+                        mon::eval("latency-bound");
+                        let adv = L_LAST.load(SeqCst).saturating_sub(e0);
+                        let bound = 12 * (2 + (n + 1023) / 1024);
+                        if L_DROPS.load(SeqCst) < n {
+                            report(
+                                "C06",
+                                "C06|not-reclaimed|reacquired-and-released",
+                                format!("chain n={} residue={}: node {} re-acquired ({}) {} rounds after the head was dropped and released again: only {} of {} nodes destructed after {} rounds", n, r, pos, if via == 0 { "Weak::upgrade" } else { "WeakSnapshot::upgrade+counted" }, at, L_DROPS.load(SeqCst), n, rounds),
+                            );
+                        } else if adv > bound {
+                            report("C06", "C06|latency-exceeds-bound|reacquired-and-released", format!("chain n={} residue={}: {} advances (bound {})", n, r, adv, bound));
+                        }
+                        drop(w);
+                        out.case(h(&[52, n as u64, via as u64, at as u64, r as u64, pos as u64, revived as u64]), || {
+                            J::obj().set("shape", "chain-reacquired").set("n", n).set("pos", pos).set("rounds_before_reacquire", at).set("revived", revived).set("advances", adv)
+                        });
+                    }
+                }
+            }
+        }
+    }
     out.extra = J::obj().set("worst", &worst).set("max_advances_over_bound", max_ratio).set(
         "bound",
         "advances <= 12*(1+ceil(n/1024)): one grace period (measured 3-9 advances) per re-deferral at depth 1024",
     );
+    out.exhaustive = false;
+    out
+}
+
+// =============================================================================================
+// C05 on deep structures: upgrades racing (in rounds) with a cascade that pauses at its recursion cut-off
+
+pub struct DNode {
+    idx: usize,
+    next: AtomicRc<DNode>,
+}
+static D_FLAGS: [AtomicUsize; 4096] = [const { AtomicUsize::new(0) }; 4096];
+unsafe impl RcObject for DNode {
+    fn pop_edges(&mut self, out: &mut Vec<Rc<Self>>) {
+        out.push(self.next.take());
+    }
+}
+impl Drop for DNode {
+    fn drop(&mut self) {
+        D_FLAGS[self.idx].fetch_add(1, SeqCst);
+    }
+}
+
+/// For chains longer than the recursion cut-off (1024): weak pointers to nodes around every cut-off depth (and some
+/// others) are upgraded after k = 0.. rounds of collection; an upgrade must succeed exactly while the node's
+/// destructor has not run, a node must never be destructed while an owner obtained by an upgrade is held, every
+/// later upgrade fails, and in the end every node was destructed exactly once.
+pub fn c05(seed: u64, thorough: bool) -> SeqOut {
+    let mut out = SeqOut::new();
+    mon::TRACK_OBJS.store(false, SeqCst);
+    let mut rng = Rng::new(seed ^ 0xC05);
+    let ns: Vec<usize> = if thorough { vec![10, 1030, 1100, 2100, 3100] } else { vec![10, 1100, 2100] };
+    let residues: Vec<usize> = if thorough { (0..16).collect() } else { vec![0, 7, 14, 15] };
+    // mode 0: upgrade and release at once; 1: upgrade and hold for some rounds; 2: only after everything is over
+    let mut case_no = 0usize;
+    let (mut attempts, mut successes) = (0u64, 0u64);
+    for &n in &ns {
+        for &res in &residues {
+            for mode in 0..3usize {
+                for via in 0..2usize {
+                    for f in D_FLAGS.iter().take(n) {
+                        f.store(0, SeqCst);
+                    }
+                    case_no += 1;
+                    let mut pos: Vec<usize> = vec![0, 1, n / 2, n - 1];
+                    for c in [1024usize, 2048, 3072] {
+                        for d in [-2i64, -1, 0, 1, 2] {
+                            let p = c as i64 + d;
+                            if p >= 0 && (p as usize) < n {
+                                pos.push(p as usize);
+                            }
+                        }
+                    }
+                    for _ in 0..3 {
+                        pos.push(rng.below(n as u64) as usize);
+                    }
+                    pos.sort();
+                    pos.dedup();
+                    let mut weaks: Vec<(usize, Weak<DNode>)> = Vec::new();
+                    let head = {
+                        let g = circ::cs();
+                        let mut head: Rc<DNode> = Rc::null();
+                        for i in (0..n).rev() {
+                            let nd = Rc::new(DNode { idx: i, next: AtomicRc::null() });
+                            nd.as_ref().unwrap().next.store(head, SeqCst, &g);
+                            if pos.binary_search(&i).is_ok() {
+                                weaks.push((i, nd.downgrade()));
+                            }
+                            head = nd;
+                        }
+                        head
+                    };
+                    churn(6);
+                    while verif::global_epoch() % 16 != res {
+                        churn(1);
+                    }
+                    drop(head);
+                    let mut held: Vec<(usize, Rc<DNode>, usize)> = Vec::new();
+                    let mut failed: Vec<bool> = vec![false; n];
+                    let total_rounds = 14 * (2 + n / 1024);
+                    let mut bad = false;
+                    for round in 0..total_rounds {
+                        mon::eval("upgrade-history");
+                        // holders first: nothing held may have been destructed
+                        for (i, _, _) in &held {
+                            if D_FLAGS[*i].load(SeqCst) != 0 {
+                                report(
+                                    "C05",
+                                    "C05|destructed-under-upgraded-owner|deep-chain",
+                                    format!("chain n={} residue={}: node {} was destructed while an Rc returned by an upgrade is held (round {})", n, res, i, round),
+                                );
+                                bad = true;
+                            }
+                        }
+                        held.retain(|(_, _, until)| *until > round);
+                        if mode != 2 || round + 1 == total_rounds {
+                            for (i, w) in &weaks {
+                                if held.iter().any(|h| h.0 == *i) {
+                                    continue;
+                                }
+                                // each weak is tried every 9th round (a revived node must get the chance to be
+                                // destructed between two attempts); the phase sweeps over the cases
+                                if mode != 2 && (round + 9 - (*i + case_no) % 9) % 9 != 0 {
+                                    continue;
+                                }
+                                attempts += 1;
+                                let dropped_before = D_FLAGS[*i].load(SeqCst) != 0;
+                                let up = if via == 0 {
+                                    w.upgrade()
+                                } else {
+                                    let g = circ::cs();
+                                    w.snapshot(&g).upgrade().map(|s| s.counted())
+                                };
+                                match up {
+                                    Some(r) => {
+                                        successes += 1;
+                                        if dropped_before || D_FLAGS[*i].load(SeqCst) != 0 {
+                                            report(
+                                                "C05",
+                                                "C05|upgrade-succeeded-after-destruct|deep-chain",
+                                                format!("chain n={} residue={}: upgrade of node {} returned a reference in round {} although its destructor had run", n, res, i, round),
+                                            );
+                                            bad = true;
+                                            std::mem::forget(r);
+                                            continue;
+                                        }
+                                        if failed[*i] {
+                                            report("C05", "C05|upgrade-succeeded-after-failure|deep-chain", format!("chain n={}: upgrade of node {} succeeded after an earlier upgrade had failed", n, i));
+                                            bad = true;
+                                        }
+                                        if r.as_ref().map(|d| d.idx) != Some(*i) {
+                                            report("C05", "C05|upgrade-wrong-object|deep-chain", format!("upgrade of node {} returned another object", i));
+                                        }
+                                        if mode == 1 && rng.chance(1, 2) {
+                                            let until = round + 1 + rng.below(5) as usize;
+                                            held.push((*i, r, until));
+                                        }
+                                    }
+                                    None => failed[*i] = true,
+                                }
+                            }
+                        }
+                        if bad {
+                            break;
+                        }
+                        churn(1);
+                    }
+                    for (_, r, _) in held.drain(..) {
+                        if bad {
+                            std::mem::forget(r);
+                        }
+                    }
+                    if !bad {
+                        let mut r = 0;
+                        while (0..n).any(|i| D_FLAGS[i].load(SeqCst) == 0) && r < 40 * (2 + n / 1024) {
+                            churn(1);
+                            r += 1;
+                        }
+                        let zero = (0..n).filter(|&i| D_FLAGS[i].load(SeqCst) == 0).count();
+                        let twice = (0..n).filter(|&i| D_FLAGS[i].load(SeqCst) > 1).count();
+                        if zero > 0 || twice > 0 {
+                            report(
+                                "C05",
+                                "C05|deep-chain-not-destructed-exactly-once",
+                                format!("chain n={} residue={} mode={}: {} nodes never destructed, {} destructed twice after all owners were released", n, res, mode, zero, twice),
+                            );
+                        } else {
+                            for (i, w) in &weaks {
+                                if w.upgrade().is_some() {
+                                    report("C05", "C05|upgrade-succeeded-after-destruct|deep-chain", format!("chain n={}: node {} upgrades after the whole chain was destructed", n, i));
+                                }
+                            }
+                        }
+                    }
+                    drop(weaks);
+                    churn(4);
+                    out.case(h(&[60, n as u64, res as u64, mode as u64, via as u64]), || J::obj().set("n", n).set("residue", res).set("mode", mode).set("via", via));
+                }
+            }
+        }
+    }
+    out.extra = J::obj().set("upgrade_attempts", attempts).set("upgrades_succeeded_after_the_head_was_dropped", successes);
     out.exhaustive = false;
     out
 }
